@@ -1,20 +1,42 @@
 import KyupyVerif.Props.C01
 import KyupyVerif.Props.C02
 import KyupyVerif.Props.C08
+import KyupyVerif.Props.C04
 import KyupyVerif.Model.WaveCirc
+import KyupyVerif.Proofs.WaveStrip
 /-! # C06 — results do not depend on performance options, lane position or code path
 
 What is theorem here:
 * lanes / batch size / restriction to the first k lanes (LogicSim): the bit-parallel simulator is lane-wise for
   every lane count, so lane `k` of a run depends only on lane `k` of the stimulus (`lane_independent2/4/8`);
 * memory reuse: under a liveness-separation certificate memory-level execution equals signal-level execution,
-  which does not mention the map (`reuse_irrelevant` = `mem_refines`, abstract; the certificate is evaluated
-  per instance, C08);
+  which does not mention the map: `reuse_irrelevant_logic` (two accepted maps for the same rows — reuse off / on —
+  leave the same values in every output slot; from the soundness theorem of the map certificate, C08; the certificate is
+  evaluated on the real tables of every instance) and the older abstract form `reuse_irrelevant` = `mem_refines`;
 * code paths of 2-valued propagation agree for every program (`paths_agree`);
 * delay data-set selection modes 0 and 1 (`select_mode0`, `select_mode1`).
-What is oracle only (harness/c06.py): fork stripping on/off, CPU vs mock-GPU kernels, WaveSim lanes and
-`c_prop(sims=k)`. Fork stripping of the timing simulator is FALSE in general for polarity-dependent delays
-(non-monotone stem waveforms, known finding D13) — `zero_delay_buffer_not_identity` is a proved witness. -/
+* fork stripping of the timing simulator (WaveSim, `strip_forks`), in the waveform model `Wave.simWave`:
+  - gate level `buf0_identity`: a buffer (LUT `BUF1`) whose operand line has zero delay copies a strictly
+    increasing operand waveform exactly — entries, terminator (an overflow marker is passed on), activity
+    counts — whenever the waveform and its terminator fit the output capacity (`length + 1 ≤ cap`); the bound is
+    sharp: `buf0_overflow` (otherwise the terminator is `tovl` and entries are lost);
+  - program level `strip_equiv`: for every op program with fork rows (certificate `stripOkB`, evaluated on the
+    real rows) the stripped program `stripOps` (fork rows dropped, readers take the stem as value source and keep
+    the branch as delay line — the eight-index rows of `opDelays`) computes the same waveform on every signal that
+    is not a removed branch, provided every stem waveform of the UN-STRIPPED run is strictly increasing and fits
+    the branch capacity (`ForkIn`) and the lines read by forks have zero delay;
+  - `strip_equiv_polind`: the run-time hypothesis follows from checkable ones — polarity-independent delays
+    (⇒ all waveforms strictly increasing, `C04.mono_timestamps`), capacity of a stem ≤ capacity of its branches;
+  - `zero_delay_buffer_not_identity`: without monotonicity the gate-level statement is FALSE (the proved reason
+    for known finding D13: polarity-dependent delays can produce a non-monotone stem waveform).
+What is correspondence (harness/c06.py, clause `wave-strip`): the real un-stripped rows satisfy `stripOkB` for the
+real branch ↦ stem map (read off `c_locs`), and `stripOps` of the real un-stripped rows equals the real stripped rows;
+the numeric hypotheses (zero delay on fork inputs, capacities, polarity independence, monotone stems of the real
+un-stripped run) are evaluated per case and, when they hold, the two real runs must agree on every non-branch
+waveform. Not covered by a theorem: the scheduler model `genOps … strip` is not proved equal to `stripOps` of
+`genOps … (strip := false)` (tied per instance instead).
+What is oracle only (harness/c06.py): LogicSim fork stripping, CPU vs mock-GPU kernels, WaveSim lanes and
+`c_prop(sims=k)`, fork stripping with non-monotone stems (known finding D13). -/
 namespace KV.C06
 open KV KV.Sig KV.Wave
 
@@ -68,11 +90,232 @@ theorem reuse_irrelevant {α C : Type} (L : MemRef.Layout α C) (c : MemRef.Cert
     MemRef.I L c (k + levels.length) (levels.foldl (MemRef.runMem L) m) (levels.foldl MemRef.runSig env) :=
   C08.mem_refines L c levels k m env h h0
 
+/-- memory reuse, concrete: two memory maps for the same circuit, options and op rows (e.g. `c_reuse` off and on, or two
+    different allocators) that both pass the map certificate leave the same value in every output slot — each equals
+    the signal-level result, which does not mention the map. Tables of the real simulator pass the certificate on every
+    generated case (C08). One-row-per-signal storage (LogicSim), any value domain and op semantics. -/
+theorem reuse_irrelevant_logic {α : Type} [Inhabited α] (p1 p2 : MapIn)
+    (hnet : p1.net = p2.net) (hstrip : p1.strip = p2.strip) (hops : p1.ops = p2.ops)
+    (h1 : p1.check = none) (h2 : p2.check = none) (hp1 : 0 < p1.capsMin) (hp2 : 0 < p2.capsMin)
+    (f : Nat → List α → α) (m1 m2 : Int → α) (env0 : Nat → α)
+    (h01 : ∀ x ∈ p1.tracked, (∀ o ∈ p1.ops, o.out ≠ x) → m1 (p1.loc x) = env0 x)
+    (h02 : ∀ x ∈ p2.tracked, (∀ o ∈ p2.ops, o.out ≠ x) → m2 (p2.loc x) = env0 x) :
+    ∀ j s, (j, s) ∈ p1.ppoSrcs →
+      MapSound.memRun p1 (MapSound.rowRW α) (fun o => f o.lut) p1.ops m1 (p1.loc j)
+        = MapSound.memRun p2 (MapSound.rowRW α) (fun o => f o.lut) p2.ops m2 (p2.loc j) := by
+  obtain ⟨net1, strip1, ops1, st1, l1, c1, n1, cm1⟩ := p1
+  obtain ⟨net2, strip2, ops2, st2, l2, c2, n2, cm2⟩ := p2
+  simp only at hnet hstrip hops
+  subst hnet hstrip hops
+  intro j s hjs
+  rw [C08.map_certificate_sound_logic _ h1 hp1 f m1 env0 h01 j s hjs,
+      C08.map_certificate_sound_logic _ h2 hp2 f m2 env0 h02 j s hjs]
+  rfl
+
 /-- a zero-delay buffer is NOT the identity on a non-monotone waveform: `[51, 44, 57]` becomes `[57]`
     (the two out-of-order edges cancel). This is why stripping forks changes timing results when a stem
     waveform is non-monotone (possible only with polarity-dependent delays, see `C04.mono_timestamps`). -/
 theorem zero_delay_buffer_not_identity :
     (waveEval 0xAAAA (fun _ _ _ => 0) (fun i => if i = 0 then [T.fin 51, T.fin 44, T.fin 57] else []) (fun _ => T.tmax) 16).1
       ≠ [T.fin 51, T.fin 44, T.fin 57] := by decide +kernel
+
+
+/-! ## fork stripping of the timing simulator -/
+
+/-- **zero-delay buffer = identity on strictly increasing waveforms.**
+    Any LUT that is a buffer on operand 0 (`IsBuf`, e.g. `sim.BUF1 = 0xAAAA`), non-negative delays, delay 0 for all
+    four polarity combinations of operand 0 (hence pulse-filter threshold 0), capacity ≥ 4 (`c_caps_min`), all
+    operand waveforms well formed (finite entries, optional leading `tmin`), operand 0 strictly increasing and
+    `length + 1 ≤ capacity` (entries plus terminator fit). Operands 1–3 may be anything well formed.
+    Then the produced waveform has exactly the entries of operand 0; its terminator is the largest operand
+    terminator (so `tovl` on the operand is passed on); `nrise`/`nfall` are those of the copied waveform. -/
+theorem buf0_identity (lut : Nat) (hbuf : IsBuf lut) (D : Delays) (hD : ∀ i p q, 0 ≤ D i p q)
+    (hz : ∀ p q, D 0 p q = 0) (ws : Fin 4 → List T) (terms : Fin 4 → T) (zcap : Nat) (hcap : 4 ≤ zcap)
+    (hwf : ∀ i, WfRem (ws i)) (hterm : ∀ i, (terms i).isTerm = true)
+    (hinc : Incr (ws 0)) (hlen : (ws 0).length + 1 ≤ zcap) :
+    waveEval lut D ws terms zcap =
+      (ws 0, T.max (T.max (terms 0) (terms 1)) (T.max (terms 2) (terms 3)),
+       ((ws 0).length + 1) / 2 - startsHigh (ws 0), (ws 0).length / 2) :=
+  waveEval_buf0 ⟨lut, D, terms, zcap, hcap, hD, hterm⟩ hbuf hz ws hwf hinc (show (ws 0).length < zcap by omega)
+
+theorem buf1_isBuf : IsBuf 0xAAAA := isBuf_BUF1
+
+/-- the capacity hypothesis of `buf0_identity` is sharp: under the same hypotheses but `capacity ≤ length` (entries plus
+    terminator do not fit) the buffer overflows — the terminator becomes `tovl` and entries are lost -/
+theorem buf0_overflow (lut : Nat) (hbuf : IsBuf lut) (D : Delays) (hD : ∀ i p q, 0 ≤ D i p q)
+    (hz : ∀ p q, D 0 p q = 0) (ws : Fin 4 → List T) (terms : Fin 4 → T) (zcap : Nat) (hcap : 4 ≤ zcap)
+    (hwf : ∀ i, WfRem (ws i)) (hterm : ∀ i, (terms i).isTerm = true)
+    (hinc : Incr (ws 0)) (hlen : zcap ≤ (ws 0).length) :
+    (waveEval lut D ws terms zcap).2.1 = T.tovl ∧ (waveEval lut D ws terms zcap).1.length < (ws 0).length :=
+  waveEval_buf0_overflow ⟨lut, D, terms, zcap, hcap, hD, hterm⟩ hbuf hz ws hwf hinc hlen
+
+/-- … for instance four transitions into capacity 4: `[1, 2, 3, 4]` becomes `[1, 2]` with the overflow marker -/
+example : waveEval 0xAAAA (fun _ _ _ => 0) (fun i => if i = 0 then [T.fin 1, T.fin 2, T.fin 3, T.fin 4] else []) (fun _ => T.tmax) 4
+    = ([T.fin 1, T.fin 2], T.tovl, 1, 1) := by decide +kernel
+
+/-- the row form: a `BUF1` row whose operand line has zero delay and whose other operands carry no overflow marker
+    (the `zero` slot) returns operand 0 unchanged -/
+theorem fork_row_copies (cfg : WCfg) (op : Op) (xs : List Wv) (hd : ∀ l p q, 0 ≤ cfg.delay l p q)
+    (hc : 4 ≤ cfg.cap op.out) (hbuf : IsBuf op.code) (hz : ∀ p q, opDelays cfg op 0 p q = 0)
+    (hx : ForkIn cfg op xs) : waveSem cfg op xs = slot xs 0 :=
+  waveSem_buf0 cfg op xs hd hc hbuf hz hx
+
+/-- non-vacuity of `buf0_identity`: initially-high operand with two transitions, other operands toggling, capacity 4 -/
+example : waveEval 0xAAAA (fun i _ _ => if i = 0 then 0 else 3)
+    (fun i => if i = 0 then [T.tmin, T.fin 3, T.fin 7] else if i = 1 then [T.fin 2, T.fin 5] else [])
+    (fun i => if i = 2 then T.tovl else T.tmax) 4 = ([T.tmin, T.fin 3, T.fin 7], T.tovl, 1, 1) := by
+  have h := buf0_identity 0xAAAA buf1_isBuf (fun i _ _ => if i = 0 then 0 else 3) (by intro i p q; split <;> omega)
+    (by intro p q; rfl)
+    (fun i => if i = 0 then [T.tmin, T.fin 3, T.fin 7] else if i = 1 then [T.fin 2, T.fin 5] else [])
+    (fun i => if i = 2 then T.tovl else T.tmax) 4 (by omega)
+    (by intro i; simp only [WfRem]; split <;> (try split) <;> simp [T.isFin])
+    (by intro i; split <;> rfl)
+    (by simp [Incr, T.lt, T.rank])
+    (by simp)
+  exact h
+
+/-- the same instance by evaluation of the model -/
+example : waveEval 0xAAAA (fun i _ _ => if i = 0 then 0 else 3)
+    (fun i => if i = 0 then [T.tmin, T.fin 3, T.fin 7] else if i = 1 then [T.fin 2, T.fin 5] else [])
+    (fun i => if i = 2 then T.tovl else T.tmax) 4 = ([T.tmin, T.fin 3, T.fin 7], T.tovl, 1, 1) := by decide +kernel
+
+/-- **fork stripping, every program.** `ops` is a program with fork rows for the branch ↦ stem map `st`
+    (`stripOkB`: every row has four operands; a row writing a branch `b ↦ s` is `BUF1(b; x, zero, zero, zero)` with `x`
+    the stem `s` or an already written branch of `s`; `s`, `x` and `zero` are not written at or after it; every other
+    row reads only branches that are already written). Delays ≥ 0, capacities ≥ 4, delay 0 on every line read by
+    a fork row. If in the UN-STRIPPED run every fork row's operands are well formed, its stem waveform is strictly
+    increasing and fits the branch capacity and the `zero` slot carries terminator `tmax` (`ForkIn`), then the stripped
+    program `stripOps st ops` — fork rows dropped, readers redirected to the stem as value source, keeping the branch
+    as delay line — yields the same waveform as `ops` on every signal that is not a branch; and what the un-stripped
+    run leaves on a branch (where an output port or flip-flop captures it) is what the stripped run leaves on the stem
+    (whose memory the branch shares after stripping). -/
+theorem strip_equiv (cfg : WCfg) (st : List (Nat × Nat)) (zidx : Nat) (ops : List Op) (env : Nat → Wv)
+    (hg : cfg.Good ops) (hs : stripOkB st zidx [] ops = true)
+    (hz : ∀ op ∈ ops, (st.lookup op.out).isSome = true → ∀ p q, cfg.delay (op.ins.getD 0 0) p q = 0)
+    (hrun : ∀ op ∈ ops, (st.lookup op.out).isSome = true → ForkIn cfg op (op.ins.map (simWave cfg ops env))) :
+    (∀ l, st.lookup l = none → simWave cfg (stripOps st ops) env l = simWave cfg ops env l) ∧
+    (∀ b s, st.lookup b = some s → (∃ p ∈ ops, p.out = b) →
+      simWave cfg (stripOps st ops) env s = simWave cfg ops env b) := by
+  obtain ⟨h1, h2⟩ := strip_final cfg st zidx ops env hg hs hz hrun
+  refine ⟨h1, fun b s hb hw => ?_⟩
+  obtain ⟨p, hp, hpo⟩ := hw
+  rw [h1 s (stripOkB_stem_none hs hp (hpo ▸ hb)), h2 b s hb ⟨p, hp, hpo⟩]
+
+/-- **fork stripping under checkable hypotheses**: polarity-independent delays (⇒ every waveform of the run is
+    strictly increasing), strictly increasing well-formed input waveforms, capacity of the line a fork reads ≤ capacity
+    of each branch, input waveforms on fork-read lines fit the branch, and the `zero` slot holds terminator `tmax`. -/
+theorem strip_equiv_polind (cfg : WCfg) (hpol : C04.PolIndep cfg) (st : List (Nat × Nat)) (zidx : Nat) (ops : List Op)
+    (env : Nat → Wv) (hg : cfg.Good ops) (hs : stripOkB st zidx [] ops = true)
+    (hz : ∀ op ∈ ops, (st.lookup op.out).isSome = true → ∀ p q, cfg.delay (op.ins.getD 0 0) p q = 0)
+    (hcap : ∀ op ∈ ops, (st.lookup op.out).isSome = true → cfg.cap (op.ins.getD 0 0) ≤ cfg.cap op.out)
+    (henv : ∀ l, C04.MonoOk (env l))
+    (hlen : ∀ op ∈ ops, (st.lookup op.out).isSome = true → (env (op.ins.getD 0 0)).ents.length < cfg.cap op.out)
+    (hzero : (env zidx).term = T.tmax) :
+    (∀ l, st.lookup l = none → simWave cfg (stripOps st ops) env l = simWave cfg ops env l) ∧
+    (∀ b s, st.lookup b = some s → (∃ p ∈ ops, p.out = b) →
+      simWave cfg (stripOps st ops) env s = simWave cfg ops env b) := by
+  apply strip_equiv cfg st zidx ops env hg hs hz ?_
+  intro op hop hb
+  -- every waveform of the un-stripped run is well formed and strictly increasing
+  have hmono : ∀ x, C04.MonoOk (simWave cfg ops env x) :=
+    execG_inv_on C04.MonoOk (waveSem cfg) ops
+      (fun o ho xs hx => C04.gate_mono cfg hpol o hg.delay_nonneg (hg.cap_ge o ho) xs hx) env henv
+  have hlen4 : op.ins.length = 4 := by
+    obtain ⟨pre, post, hsplit⟩ := List.append_of_mem hop
+    obtain ⟨w'', hs''⟩ := stripOkB_suffix pre (hsplit ▸ hs)
+    exact (stripOkB_cons hs'').1
+  have hdrop : op.ins.drop 1 = [zidx, zidx, zidx] := by
+    obtain ⟨pre, post, hsplit⟩ := List.append_of_mem hop
+    obtain ⟨w'', hs''⟩ := stripOkB_suffix pre (hsplit ▸ hs)
+    obtain ⟨s, hlo⟩ := Option.isSome_iff_exists.mp hb
+    exact (forkRowB_spec ((stripOkB_cons hs'').2.2.2.1 s hlo)).2.1
+  have hins := forkRow_ins hlen4 hdrop
+  have hslot : ∀ i : Fin 4, slot (op.ins.map (simWave cfg ops env)) i =
+      simWave cfg ops env (if i = 0 then op.ins.getD 0 0 else zidx) := by
+    intro i
+    rw [hins]
+    match i with
+    | 0 => rfl
+    | 1 => rfl
+    | 2 => rfl
+    | 3 => rfl
+  refine ⟨fun i => ?_, ?_, ?_, ?_⟩
+  · rw [hslot i]; exact (hmono _).1
+  · rw [hslot 0]; exact (hmono _).2
+  · rw [hslot 0]
+    simp only [if_true]
+    rcases execG_cases (waveSem cfg) ops env (op.ins.getD 0 0) with h | ⟨o, ho, hout, xs, hx⟩
+    · show (execG (waveSem cfg) ops env (op.ins.getD 0 0)).ents.length < _
+      rw [h]; exact hlen op hop hb
+    · show (execG (waveSem cfg) ops env (op.ins.getD 0 0)).ents.length < _
+      rw [hx]
+      have h1 := waveSem_len cfg o xs (by have := hg.cap_ge o ho; omega)
+      have h2 := hcap op hop hb
+      rw [hout] at h1
+      omega
+  · intro i hi
+    rw [hslot i, if_neg hi]
+    show (execG (waveSem cfg) ops env zidx).term = _
+    rw [execG_frame (waveSem cfg) ops env zidx (stripOkB_out_ne hs)]
+    exact hzero
+
+
+/-! ### non-vacuity: `10 = AND(0,1)` is a stem with branches 11, 12 and — through a chained fork reading 12 — 13;
+`14 = XOR(11, 2)`, `15 = OR(13, 14)`; slot 9 is the `zero` slot; the lines read by forks (10, 12) have zero delay -/
+def exOps : List Op := [⟨0x8888, 10, [0, 1, 9, 9]⟩, ⟨0xAAAA, 11, [10, 9, 9, 9]⟩, ⟨0xAAAA, 12, [10, 9, 9, 9]⟩,
+  ⟨0xAAAA, 13, [12, 9, 9, 9]⟩, ⟨0x6666, 14, [11, 2, 9, 9]⟩, ⟨0xEEEE, 15, [13, 14, 9, 9]⟩]
+def exSt : List (Nat × Nat) := [(11, 10), (12, 10), (13, 10)]
+/-- polarity-independent delays -/
+def exCfg : WCfg := ⟨fun l _ _ => if l = 10 ∨ l = 12 then 0 else if l = 13 then 7 else 2, fun _ => 8⟩
+/-- polarity-dependent delays -/
+def exCfg2 : WCfg := ⟨fun l p q => if l = 10 ∨ l = 12 then 0 else if p then (if q then 4 else 3) else 1, fun _ => 8⟩
+def exEnv : Nat → Wv := fun l => if l = 0 then stimWave false 5 true else if l = 1 then stimWave true 40 false
+  else if l = 2 then stimWave true 20 false else Wv.empty
+
+theorem ex_ok : stripOkB exSt 9 [] exOps = true := by decide +kernel
+
+example : stripOps exSt exOps =
+    [⟨0x8888, 10, [0, 1, 9, 9, 0, 1, 9, 9]⟩, ⟨0x6666, 14, [10, 2, 9, 9, 11, 2, 9, 9]⟩, ⟨0xEEEE, 15, [10, 14, 9, 9, 13, 14, 9, 9]⟩] := rfl
+
+theorem ex_good (c : WCfg) (hd : ∀ l p q, 0 ≤ c.delay l p q) (hc : c.cap = fun _ => 8) : c.Good exOps :=
+  ⟨hd, fun op _ => by rw [hc]; show 4 ≤ 8; decide⟩
+
+theorem ex_cfg_nonneg : ∀ l p q, 0 ≤ exCfg.delay l p q := by
+  intro l p q
+  show (0 : Int) ≤ if l = 10 ∨ l = 12 then 0 else if l = 13 then 7 else 2
+  repeat' split
+  all_goals omega
+
+theorem ex_cfg2_nonneg : ∀ l p q, 0 ≤ exCfg2.delay l p q := by
+  intro l p q
+  show (0 : Int) ≤ if l = 10 ∨ l = 12 then 0 else if p then (if q then 4 else 3) else 1
+  repeat' split
+  all_goals omega
+
+theorem ex_env_mono (l : Nat) : C04.MonoOk (exEnv l) := by
+  unfold exEnv
+  repeat' split
+  all_goals simp [C04.MonoOk, Wv.ok, WfRem, Incr, stimWave, Wv.empty, T.isFin, T.isTerm, T.lt, T.rank]
+
+/-- `strip_equiv_polind` applies: all hypotheses hold for the example -/
+example (l : Nat) (hl : exSt.lookup l = none) : simWave exCfg (stripOps exSt exOps) exEnv l = simWave exCfg exOps exEnv l :=
+  (strip_equiv_polind exCfg (fun _ _ _ => rfl) exSt 9 exOps exEnv
+    (ex_good exCfg ex_cfg_nonneg rfl)
+    ex_ok (by decide +kernel) (by decide +kernel) ex_env_mono (by decide +kernel) rfl).1 l hl
+
+/-- … and the common result is not trivial -/
+example : simWave exCfg exOps exEnv 15 = ⟨[T.tmin, T.fin 49], T.tmax⟩ ∧
+    simWave exCfg (stripOps exSt exOps) exEnv 15 = ⟨[T.tmin, T.fin 49], T.tmax⟩ ∧
+    simWave exCfg exOps exEnv 14 = ⟨[T.tmin, T.fin 9, T.fin 22, T.fin 44], T.tmax⟩ := by decide +kernel
+
+/-- `strip_equiv` applies with polarity-DEPENDENT delays: the run-time hypothesis `ForkIn` (stem waveforms of the
+    un-stripped run strictly increasing and short enough) is evaluated on the run -/
+example (l : Nat) (hl : exSt.lookup l = none) : simWave exCfg2 (stripOps exSt exOps) exEnv l = simWave exCfg2 exOps exEnv l :=
+  (strip_equiv exCfg2 exSt 9 exOps exEnv
+    (ex_good exCfg2 ex_cfg2_nonneg rfl)
+    ex_ok (by decide +kernel) (by simp only [ForkIn, Wv.ok, WfRem, Incr]; decide +kernel)).1 l hl
+
+example : simWave exCfg2 exOps exEnv 15 = ⟨[T.tmin, T.fin 52], T.tmax⟩ ∧
+    simWave exCfg2 (stripOps exSt exOps) exEnv 15 = ⟨[T.tmin, T.fin 52], T.tmax⟩ := by decide +kernel
 
 end KV.C06
